@@ -317,18 +317,16 @@ namespace bluetoe
                             if ( write_size != 1 )
                                 return request_error( bluetoe::error_codes::invalid_attribute_value_length );
 
-                            in_flash_mode = false;
-                            next_buffer_  = 0;
-                            used_buffer_  = 0;
-
-                            for ( auto& buffer : buffers_ )
-                                buffer.free();
+                            leave_flash_mode();
                         }
                         break;
                     case opc_get_crc:
                         {
                             if ( write_size != 1 + 2 * sizeof( std::uint8_t* ) )
                                 return request_error( bluetoe::error_codes::invalid_attribute_value_length );
+
+                            // start_address is shared with the flash mode
+                            leave_flash_mode();
 
                                                  start_address = read_address( value +1 );
                             const std::uintptr_t end_address   = read_address( value +1 + sizeof( std::uint8_t* ) );
@@ -398,6 +396,9 @@ namespace bluetoe
                             start_address = read_address( value +1 );
                             end_address   = read_address( value +1 + sizeof( std::uint8_t* ) );
                             check_sum     = this->checksum32( start_address );
+
+                            // start_address is shared with the flash mode
+                            leave_flash_mode();
 
                             if ( start_address > end_address || !MemRegions::acceptable( start_address,end_address ) )
                                 return request_error( bluetoe::error_codes::invalid_offset );
@@ -625,6 +626,16 @@ namespace bluetoe
                     }
 
                     return false;
+                }
+
+                void leave_flash_mode()
+                {
+                    in_flash_mode = false;
+                    next_buffer_  = 0;
+                    used_buffer_  = 0;
+
+                    for ( auto& buffer : buffers_ )
+                        buffer.free();
                 }
 
                 std::pair< std::uint8_t, bool > request_error( std::uint8_t code )
